@@ -53,3 +53,23 @@ Theorem C04_bytes_compare_public : forall v w, wfb v = true -> top_ok v -> wfb w
   compare_w (enc v) (enc w) = Ok (cmp_value v w).
 Proof. exact compare_w_enc. Qed.
 Print Assumptions C04_bytes_compare_public.
+
+(* ---- "compare gives the same answer whether either side is JSON text or JSONB" (TextBinProofs.v): each side is the
+   encoding of its document or a JSON text of it (not taken for JSONB by is_jsonb, i.e. not beginning with a space);
+   in all four combinations the public function returns the order of the two documents *)
+From JB Require Import JsonText TextBinProofs.
+Theorem C04_compare_text_or_binary : forall t u a b, wfb a = true -> wfb b = true ->
+  ((t = enc a /\ top_ok a) \/ (is_jsonb t = false /\ parse_value t = Ok a)) ->
+  ((u = enc b /\ top_ok b) \/ (is_jsonb u = false /\ parse_value u = Ok b)) ->
+  compare_w t u = Ok (cmp_value a b).
+Proof. exact compare_forms. Qed.
+Print Assumptions C04_compare_text_or_binary.
+
+Theorem C04_compare_same_answer_text_or_binary : forall t1 t2 u1 u2 a b, wfb a = true -> wfb b = true ->
+  ((t1 = enc a /\ top_ok a) \/ (is_jsonb t1 = false /\ parse_value t1 = Ok a)) ->
+  ((t2 = enc a /\ top_ok a) \/ (is_jsonb t2 = false /\ parse_value t2 = Ok a)) ->
+  ((u1 = enc b /\ top_ok b) \/ (is_jsonb u1 = false /\ parse_value u1 = Ok b)) ->
+  ((u2 = enc b /\ top_ok b) \/ (is_jsonb u2 = false /\ parse_value u2 = Ok b)) ->
+  compare_w t1 u1 = compare_w t2 u2.
+Proof. intros t1 t2 u1 u2 a b Wa Wb S1 S2 X1 X2. exact (C11_compare_same_answer t1 t2 a Wa S1 S2 u1 u2 b Wb X1 X2). Qed.
+Print Assumptions C04_compare_same_answer_text_or_binary.
